@@ -145,6 +145,8 @@ def _has_local_caller(F, key):
     if c is None:
         c = set()
         for b in F.body_list:
+            if b["kind"] not in ("Fn", "AssocFn"):
+                continue  # a helper called from a closure only is not inlined anywhere: it is judged on its own
             for bl in b["blocks"]:
                 t = bl["term"]
                 if t["k"] == "call":
